@@ -421,9 +421,39 @@ def shards(tier):
     return out
 
 
+# the same numbers in another numeric type: a product asked for with floats (whose product is NOT representable: the
+# components are 1 +- 2**-30) and then with equal Fractions / ints -- the exact call gets the exact product
+EPS = Fr(1, 2 ** 30)
+MIXED = [
+    ((1 + EPS, Fr(0), Fr(0), 1 - EPS, Fr(0), Fr(0)), (1 + EPS, Fr(0), Fr(0), 1 + EPS, Fr(1), Fr(2))),
+    ((1 - EPS, EPS, -EPS, 1 + EPS, Fr(3), Fr(0)), (1 - EPS, Fr(0), Fr(0), 1 - EPS, Fr(0), 1 + EPS)),
+    ((Fr(2), Fr(0), Fr(0), Fr(3), Fr(1), Fr(1)), (Fr(5), Fr(1), Fr(0), Fr(7), Fr(2), Fr(0))),
+]
+
+
+def run_mixed(st):
+    for m1, m0 in MIXED:
+        for first in ("float", "int-or-float"):
+            f1, f0 = tuple(float(x) for x in m1), tuple(float(x) for x in m0)
+            if first == "int-or-float":
+                f1 = tuple(int(x) if x.denominator == 1 else float(x) for x in m1)
+            utils.mult_matrix(f1, f0)  # history: the same numbers, another type
+            prod = tuple(utils.mult_matrix(m1, m0))
+            exp = ref_mult(m1, m0)
+            st.states += 1
+            st.transitions += 2
+            st.traces += 1
+            st.case(None, nontrivial=True, outcome=prod)
+            if prod != exp or any(type(x) is not type(y) for x, y in zip(prod, exp)):
+                st.violation("C20/mult_matrix-depends-on-earlier-call-with-other-number-type", {"kind": "mixed", "m1": m1, "m0": m0}, exp, prod,
+                             "mult_matrix on exact numbers after the same call with equal floats")
+
+
 def run_shard(shard, tier, st):
     if shard[0] == "pairs":
         i = shard[1]
+        if i == 0:
+            run_mixed(st)
         for j in range(len(POOL)):
             algebra_pair(i, j, st)
         if i in (3, 20):
@@ -472,6 +502,8 @@ def replay(case):
             exp = ([o.name for o in state[0]], len(state[0]), sorted(o.name for o in state[0].find(b)))
             if got != exp or got[0] != live2:
                 st.violation("C20/plane-observation-changes-state", case, exp, got, "observation changes state")
+    elif k == "mixed":
+        run_mixed(st)
     elif k == "pair":
         i, j = POOL.index(tuple(case["m1"])), POOL.index(tuple(case["m0"]))
         algebra_pair(i, j, st)
